@@ -364,6 +364,8 @@ fn value_labels(cx: &Ctx, docs: &[DocSpec]) {
     cx.label_if(max_depth >= 3, "json_depth>=3");
     cx.label_if(max_depth >= 6, "json_depth>=6");
     cx.label_if(max_depth >= 8, "json_depth>=8");
+    cx.label_if(max_depth > 20, "json_depth>20");
+    cx.label_if(max_depth >= 40, "json_depth>=40");
     cx.label_if(multi, "multi_valued_field");
     cx.label_if(nested_special, "json_nested_date_ip_bytes_facet_pretok");
     cx.label_if(unicode, "unicode_text");
@@ -426,7 +428,7 @@ impl Sub for Store {
             "doc_larger_than_block", "doc>100KB", "stacked", "stacked_twice", "copied_with_deletes", "copy_recompressed_other_codec",
             "cache=0", "cache=1", "cache=100", "repeat_access", "iter_with_deletes",
             "value:null", "value:str", "value:pretok", "value:u64", "value:i64", "value:f64", "value:bool", "value:date", "value:facet", "value:bytes", "value:ip",
-            "value:array", "value:object", "json_depth>=8", "multi_valued_field", "json_nested_date_ip_bytes_facet_pretok", "unicode_text", "empty_document", "empty_store", "json_container>=128_slots", "doc_with>=128_values", "value>=2MiB",
+            "value:array", "value:object", "json_depth>=8", "json_depth>20", "json_depth>=40", "multi_valued_field", "json_nested_date_ip_bytes_facet_pretok", "unicode_text", "empty_document", "empty_store", "json_container>=128_slots", "doc_with>=128_values", "value>=2MiB",
         ]
     }
     fn run(&self, c: &StoreCase, cx: &Ctx) -> CaseResult {
@@ -758,7 +760,7 @@ impl Sub for Idx {
             "merge", "merge_src_stackable", "merge_all_stacked", "merge_all_stacked_multi", "merge_src_has_deletes", "merge_src_lt6_blocks", "merge_codec_changed", "merge_later_src_other_codec_after_same_codec_first", "merge_later_src_same_codec_after_other_codec_first", "merge_sorted", "merge_of_merged", "merge_single_segment",
             "blocks>=600", "skip_layers>=4", "doc_larger_than_block", "doc>100KB", "cache=0", "cache=1", "cache=100",
             "value:null", "value:str", "value:pretok", "value:u64", "value:i64", "value:f64", "value:bool", "value:date", "value:facet", "value:bytes", "value:ip",
-            "value:array", "value:object", "json_depth>=8", "multi_valued_field", "json_nested_date_ip_bytes_facet_pretok", "unicode_text", "empty_document", "json_container>=128_slots", "doc_with>=128_values", "value>=2MiB",
+            "value:array", "value:object", "json_depth>=8", "json_depth>20", "json_depth>=40", "multi_valued_field", "json_nested_date_ip_bytes_facet_pretok", "unicode_text", "empty_document", "json_container>=128_slots", "doc_with>=128_values", "value>=2MiB",
         ]
     }
     fn run(&self, c: &IndexCase, cx: &Ctx) -> CaseResult {
